@@ -4,28 +4,37 @@
 (*                                                                         *)
 (* State = (precision p, coefficient ca, coefficient cb).  Init picks p    *)
 (* and ca (cb = -1); the only step picks cb.  The invariant is evaluated   *)
-(* on every state, i.e. in the worker threads for the ~1.07 million (ca,   *)
-(* cb) pairs:                                                              *)
+(* on every state, i.e. in the worker threads for the (ca, cb) pairs:      *)
 (*                                                                         *)
 (*  cb = -1 : unary checks on a = (-1)^s ca 10^e, s in {0,1}, e in -3..3   *)
-(*            (DecPlus/DecNeg/DecAbs against the oracle, DecToIntegral and *)
-(*            DecQuantize against integer arithmetic, DecCmp reflexive).   *)
-(*  cb >= 0 : for both signs of both operands, every exponent pair of      *)
-(*            ExpPairs(p) and op in + - * / :                              *)
-(*              CorrectlyRounded(.., op, DecOp(a, b, p), p)                *)
-(*            (both sides signal for x/0 and 0/0), and DecCmp(a, b) agrees *)
-(*            with the cross-multiplied integer order.                     *)
+(*            (DecPlus/DecNeg/DecAbs/DecFix against the oracle,            *)
+(*            DecToIntegral and DecQuantize against integer arithmetic).   *)
+(*  cb >= 0 : CorrectlyRounded(.., op, DecOp(a, b, p), p) for op in        *)
+(*            + - * / (both sides signal for x/0 and 0/0), and DecCmp /    *)
+(*            DecEq agree with the cross-multiplied integer order, over    *)
+(*            the sign and exponent combinations listed below.             *)
 (*                                                                         *)
 (* Coefficients: ALL of 0..10^p-1 plus a few (p+1)- and (p+2)-digit ones   *)
 (* (operands need not be rounded to the context precision in Python).      *)
-(* Exponent pairs: p = 1, 2: all of (-3..3) x (-3..3).  p = 3: the pairs   *)
-(* with ea = 0 or eb = 0 (13 pairs, exponent differences -3..3 in both     *)
-(* operand orders); the full 49 would cost 4x more for no new alignment    *)
-(* (only ea - eb enters the coefficient arithmetic; the absolute exponent  *)
-(* is additive and is exercised exhaustively at p = 1, 2).                 *)
+(*                                                                         *)
+(* p = 1, 2 : the full product: both signs of both operands, all 49        *)
+(*            exponent pairs of (-3..3) x (-3..3), all four operations.    *)
+(* p = 3    : all 1028 x 1028 ordered coefficient pairs, with              *)
+(*            "+"  : a = +ca E0 against b = (+/-)cb E eb, eb in -3..3      *)
+(*                   (effective addition and subtraction at every          *)
+(*                   alignment; the mirrored operand order is the state    *)
+(*                   (cb, ca) up to a common exponent shift), and          *)
+(*                   a = -ca E0 against (+/-)cb E0;                        *)
+(*            "-", "*", "/" : a = +ca E0 against (+/-)cb E0 (DecSub is     *)
+(*                   DecAdd of the negated operand; for * and / the signs  *)
+(*                   are xor-ed and the exponents added/subtracted);       *)
+(*            cmp  : the same combinations as "+".                         *)
+(*            The full product at p = 3 (2*10^8 cases per operation) would *)
+(*            take about an hour; sign symmetry and exponent-shift         *)
+(*            invariance are established exhaustively at p = 1, 2.         *)
 (* The oracle works on 32-bit TLC integers: a combination is skipped       *)
-(* (Fits) only when an EXTRA coefficient times the exponent gap exceeds    *)
-(* 5*10^8; combinations of in-range coefficients are never skipped.        *)
+(* (FitsAdd/FitsMul) only when an EXTRA coefficient makes the aligned      *)
+(* integers exceed 5*10^8; in-range coefficients are never skipped.        *)
 (***************************************************************************)
 EXTENDS Integers, Sequences, TLC, SQDecimal
 
@@ -37,18 +46,13 @@ Exps == -3..3
 Extra(q) ==
   CASE q = 1 -> {10, 11, 15, 25, 35, 45, 50, 55, 65, 75, 85, 94, 95, 96, 99, 100, 101, 105,
                  115, 125, 149, 150, 151, 249, 250, 251, 949, 950, 951, 995, 999}
-    [] q = 2 -> {100, 101, 105, 115, 125, 135, 145, 149, 150, 151, 155, 195, 199, 250, 251,
-                 500, 505, 895, 985, 994, 995, 996, 999, 1000, 1001, 1005, 1050, 1249, 1250,
-                 1251, 9949, 9950, 9951, 9995, 9999}
+    [] q = 2 -> {100, 101, 105, 125, 150, 250, 995, 999, 1000, 1001, 1005, 1250, 9950, 9995,
+                 9999}
     [] q = 3 -> {1000, 1001, 1005, 1015, 1025, 1235, 1245, 4995, 5005, 9985, 9994, 9995, 9996,
                  9999, 10000, 10001, 10005, 10050, 12345, 12350, 12449, 12450, 12451, 99949,
                  99950, 99951, 99995, 99999}
 
 Coefs(q) == (0..(10^q - 1)) \cup Extra(q)
-
-ExpPairs(q) ==
-  IF q <= 2 THEN Exps \X Exps
-  ELSE {<<0, e>> : e \in Exps} \cup {<<e, 0>> : e \in Exps}
 
 Abs(x) == IF x < 0 THEN -x ELSE x
 
@@ -67,29 +71,35 @@ Apply(op, a, b, q) ==
     [] op = "*" -> DecMul(a, b, q)
     [] op = "/" -> DecDiv(a, b, q)
 
-OpOK(op, sa, x, ea, sb, y, eb, q) ==
-  LET r == Apply(op, Mk(sa, x, ea), Mk(sb, y, eb), q) IN
-  \/ CorrectlyRounded(sa, x, ea, sb, y, eb, op, r, q)
-  \/ PrintT(<<"WRONG", q, op, <<sa, x, ea>>, <<sb, y, eb>>, r>>) /\ FALSE
-
-CmpOK(sa, x, ea, sb, y, eb) ==
-  LET m == IF ea < eb THEN ea ELSE eb
-      d == SVal(sa, x, ea, m) - SVal(sb, y, eb, m)
-      c == DecCmp(Mk(sa, x, ea), Mk(sb, y, eb))
-  IN \/ (c = (IF d < 0 THEN -1 ELSE IF d > 0 THEN 1 ELSE 0)
-         /\ DecEq(Mk(sa, x, ea), Mk(sb, y, eb)) = (d = 0))
-     \/ PrintT(<<"WRONGCMP", <<sa, x, ea>>, <<sb, y, eb>>, c>>) /\ FALSE
+Sgn(d) == IF d < 0 THEN -1 ELSE IF d > 0 THEN 1 ELSE 0
 
 BinaryOK(q, x, y) ==
-  \A sa \in {0, 1} : \A sb \in {0, 1} : \A ee \in ExpPairs(q) :
-    LET ea == ee[1]
-        eb == ee[2]
-    IN /\ FitsAdd(x, y, ea, eb) =>
-            /\ OpOK("+", sa, x, ea, sb, y, eb, q)
-            /\ OpOK("-", sa, x, ea, sb, y, eb, q)
-            /\ CmpOK(sa, x, ea, sb, y, eb)
-       /\ FitsMul(x, y) => OpOK("*", sa, x, ea, sb, y, eb, q)
-       /\ OpOK("/", sa, x, ea, sb, y, eb, q)
+  LET dx == D_NatDigs(x)
+      dy == D_NatDigs(y)
+      A(s, e) == [sign |-> s, digs |-> dx, exp |-> e]
+      B(s, e) == [sign |-> s, digs |-> dy, exp |-> e]
+      OpOK(op, sa, ea, sb, eb) ==
+        LET r == Apply(op, A(sa, ea), B(sb, eb), q) IN
+        \/ CorrectlyRounded(sa, x, ea, sb, y, eb, op, r, q)
+        \/ PrintT(<<"WRONG", q, op, <<sa, x, ea>>, <<sb, y, eb>>, r>>) /\ FALSE
+      CmpOK(sa, ea, sb, eb) ==
+        LET m == IF ea < eb THEN ea ELSE eb
+            d == SVal(sa, x, ea, m) - SVal(sb, y, eb, m)
+            c == DecCmp(A(sa, ea), B(sb, eb))
+        IN \/ (c = Sgn(d) /\ DecEq(A(sa, ea), B(sb, eb)) = (d = 0))
+           \/ PrintT(<<"WRONGCMP", <<sa, x, ea>>, <<sb, y, eb>>, c>>) /\ FALSE
+      AddCmp(sa, ea, sb, eb) ==
+        FitsAdd(x, y, ea, eb) => (OpOK("+", sa, ea, sb, eb) /\ CmpOK(sa, ea, sb, eb))
+      Rest(sa, ea, sb, eb) ==
+        /\ FitsAdd(x, y, ea, eb) => OpOK("-", sa, ea, sb, eb)
+        /\ FitsMul(x, y) => OpOK("*", sa, ea, sb, eb)
+        /\ OpOK("/", sa, ea, sb, eb)
+  IN
+  IF q <= 2
+  THEN \A sa \in {0, 1} : \A sb \in {0, 1} : \A ea \in Exps : \A eb \in Exps :
+         AddCmp(sa, ea, sb, eb) /\ Rest(sa, ea, sb, eb)
+  ELSE /\ \A sb \in {0, 1} : \A eb \in Exps : AddCmp(0, 0, sb, eb)
+       /\ \A sb \in {0, 1} : AddCmp(1, 0, sb, 0) /\ Rest(0, 0, sb, 0)
 
 -----------------------------------------------------------------------------
 (* Unary operators and integer conversions against TLC integer arithmetic  *)
